@@ -582,7 +582,7 @@ class UserTrackingManager:
                     request.handled.set()
                     return
 
-            elif previous_flags == TrackingFlag(0) or is_retry:
+            elif previous_flags == TrackingFlag(0) or (is_retry and self._is_retry_due(tracked_user)):
                 retry_timeout, retry_reason, response = await self._request_tracking(tracked_user)
 
                 if retry_timeout:
@@ -606,6 +606,17 @@ class UserTrackingManager:
                     )
 
             request.handled.set()
+
+    def _is_retry_due(self, tracked_user: TrackedUser) -> bool:
+        """Returns whether a retry request taken from the queue should still be
+        performed. The request is outdated if, since its retry timer elapsed,
+        tracking succeeded or another attempt failed and armed a new timer
+        """
+        return (
+            tracked_user.state == TrackingState.RETRY_PENDING
+            and tracked_user.retry_task is not None
+            and tracked_user.retry_task.done()
+        )
 
     async def _request_retry(self, tracked_user: TrackedUser, timeout: float):
         await asyncio.sleep(timeout)
